@@ -159,9 +159,9 @@ class InputFileRoundTrip(Contract):
                 for touch in ("data-then-flags", "flags-only"):
                     yield {"kind": "opted-out-member", "options": opts, "switch_first": switch_first, "touch": touch, "name": "optout.ui.json"}
         # a parameter switched through its dependency (not optional itself), and two optional groups in different states
-        for dtype in ("enabled", "disabled"):
+        for dtype in ("enabled", "disabled", "default"):
             for how in ("data-setter", "in-place"):
-                if dtype == "enabled" and how == "data-setter":
+                if dtype in ("enabled", "default") and how == "data-setter":
                     continue  # the validated setter refuses None for the (enabled, optional) switch itself: C15's subject
                 yield {"kind": "dependency", "dependency_type": dtype, "how": how, "name": "dep.ui.json"}
         for states in ((True, False), (False, True), (False, False), (True, True)):
@@ -385,8 +385,29 @@ class InputFileRoundTrip(Contract):
                 ui["geoh5"] = ws
                 ui["switch"] = templates.float_parameter(label="switch", value=2.0, optional="enabled")
                 ui["dependent"] = templates.float_parameter(label="dependent", value=5.0)
-                ui["dependent"].update({"dependency": "switch", "dependencyType": case["dependency_type"], "enabled": True})
+                ui["dependent"].update({"dependency": "switch", "enabled": True})
+                if case["dependency_type"] != "default":  # without the member the type is "enabled"
+                    ui["dependent"]["dependencyType"] = case["dependency_type"]
                 ui["other"] = templates.integer_parameter(label="other", value=7)
+                if case["dependency_type"] == "default":
+                    # stored with the box unchecked and the dependent switched off
+                    ui["switch"] = templates.float_parameter(label="switch", value=2.0, optional="disabled")
+                    ui["dependent"]["enabled"] = False
+                    try:
+                        ifile = InputFile(ui_json=ui)
+                        live = {k: ifile.data[k] for k in ("switch", "dependent", "other")}
+                        out = ifile.write_ui_json(name=case["name"], path=d)
+                        back = InputFile.read_ui_json(out)
+                    except Exception as exc:
+                        return f"a form that depends on an unchecked box (no dependencyType member) and is switched off cannot be written / read back: {type(exc).__name__}: {exc} ({case})"
+                    try:
+                        got = {k: back.data[k] for k in live}
+                    finally:
+                        if back.geoh5 is not None:
+                            back.geoh5.close()
+                    if live != {"switch": None, "dependent": None, "other": 7} or got != live:
+                        return f"dependency without a type, box unchecked: live values {live}, read back {got} ({case})"
+                    return None
                 ifile = InputFile(ui_json=ui)
                 # the dependent is switched off: with type "disabled" while the switch stays on, with type "enabled" together with it
                 new = {"dependent": None} if case["dependency_type"] == "disabled" else {"switch": None, "dependent": None}
@@ -696,10 +717,11 @@ class SetEnabled(Contract):
     The dictionary has a concrete shape (which members exist) and symbolic member values."""
     target = "geoh5py/ui_json/utils.py::set_enabled"
     props = ("C14",)
-    bounded_scope = "ui.json dictionaries of 2-3 forms; per form: in group G or not, optional or not, groupOptional present or not, enabled present (symbolic) or absent; every target parameter (exhaustive over these shapes: 1792 cases); the enabled values and the new state are symbolic"
+    bounded_scope = "ui.json dictionaries of 2-3 forms; per form: in group G or not, optional or not, groupOptional present or not, enabled present (symbolic) or absent; every target parameter (exhaustive over these shapes, the optional member being absent, true or false: 2688 cases); the enabled values and the new state are symbolic"
 
     def cases(self):
-        per = [(g, o, go, en) for g in (False, True) for o in (False, True) for go in (False, True) for en in (False, True)]
+        # o: the form's "optional" member is absent (False), true (True) or present and false ("no": as good as absent)
+        per = [(g, o, go, en) for g in (False, True) for o in (False, True, "no") for go in (False, True) for en in (False, True)]
         out = []
         for shape in itertools.product(per, repeat=2):
             for target in range(2):
@@ -721,7 +743,7 @@ class SetEnabled(Contract):
             if g:
                 form.items["group"] = "G"
             if o:
-                form.items["optional"] = True
+                form.items["optional"] = (o is True)
             if go:
                 form.items["groupOptional"] = True
             if en:
@@ -735,6 +757,7 @@ class SetEnabled(Contract):
     def post(self, ctx, result):
         e = ctx.env
         shape, target = ctx.case
+        shape = tuple((g, o is True, go, en) for g, o, go, en in shape)  # an explicit "optional": false is not optional
         switch = next((i for i, (g, o, go, en) in enumerate(shape) if g and go), None)
         tg, to, tgo, ten = shape[target]
         for i, (g, o, go, en) in enumerate(shape):
